@@ -57,7 +57,7 @@ def gen_cases(tier, seed):
         shape = [rnd.choice([1, 1, 2, 3, 4]), rnd.randint(1, hi), rnd.randint(1, hi),
                  rnd.randint(1, hi)]
         nlab = rnd.choice([1, 2, 2, 3, 4, 5, 9, 16, 17, 40, 256, 257, 1000, 4096])
-        mag = rnd.choice(["small", "u32", "big53", "max"])
+        mag = rnd.choice(["small", "u32", "big53", "max", "palette", "palette"])
         cases.append({"dtype": dt, "block": block, "shape": shape, "nlab": nlab, "mag": mag,
                       "layout": rnd.choice(["C", "C", "F", "T"]),
                       "style": {k2: rnd.random() < 0.5 for k2 in
@@ -92,10 +92,37 @@ def gen_cases(tier, seed):
     return cases
 
 
+PALETTES = [[0], [1], [5, 2 ** 32], [256, 512], [0, 2 ** 32], [2 ** 32], [1, 256, 65536],
+            [2 ** 40, 2 ** 48], [0, 1], [2 ** 32 + 1, 2 ** 33], [255, 256], [65535, 65536],
+            [2 ** 24], [0, 2 ** 24, 2 ** 32], [3], [2 ** 56, 1]]
+
+
+def _palette_field(case, rnd):
+    """Label field built block by block from small palettes of values with many zero
+    bytes (multi-byte labels next to uniform 0 / 1 blocks) - the byte patterns of one
+    block's table re-occur inside other tables at unaligned positions."""
+    C, Z, Y, X = case["shape"]
+    bx, by, bz = case["block"]
+    top = 2 ** 32 - 1 if case["dtype"] == "uint32" else 2 ** 64 - 1
+    out = [0] * (C * Z * Y * X)
+    pal_of = {}
+    for c in range(C):
+        for z in range(Z):
+            for y in range(Y):
+                for x in range(X):
+                    key = (c, x // bx, y // by, z // bz)
+                    if key not in pal_of:
+                        pal_of[key] = [min(v, top) for v in rnd.choice(PALETTES)]
+                    out[((c * Z + z) * Y + y) * X + x] = rnd.choice(pal_of[key])
+    return out
+
+
 def _labels(case, rnd, count):
+    if case["mag"] == "palette":
+        return _palette_field(case, rnd)
     dt = case["dtype"]
     top = {"small": 300, "u32": 2 ** 32 - 1, "big53": 2 ** 53 + 2 ** 20,
-           "max": 2 ** 64 - 1}[case["mag"]]
+           "max": 2 ** 64 - 1, "palette": 2 ** 64 - 1}[case["mag"]]
     if dt == "uint32":
         top = min(top, 2 ** 32 - 1)
     if case["nlab"] != "all":
@@ -137,6 +164,7 @@ def run_case(case):
            "labels_ge_2_32": int(max(vals) >= 2 ** 32),
            "labels_gt_2_53": int(max(vals) > 2 ** 53),
            "tables_shared_by_encoder": 0, "alt_layouts_decoded": 0,
+           "byte_sparse_palettes": int(case["mag"] == "palette"),
            "multi_channel": int(C > 1), "chunk_of_64_cubed": int(Z * Y * X >= 64 ** 3)}
     v = []
     ctx = (f"{case['dtype']} shape(C,Z,Y,X)={case['shape']} block(x,y,z)={block} "
@@ -216,4 +244,5 @@ def gates(obs, tier):
         "alternative_layouts_decoded": obs.get("alt_layouts_decoded", 0) > 50,
         "padding_function_reached": calls.get("pad_block", 0) > 0,
         "production_sized_chunk": obs.get("chunk_of_64_cubed", 0) > 0,
+        "byte_sparse_label_palettes": obs.get("byte_sparse_palettes", 0) > 50,
     }
